@@ -446,8 +446,18 @@ func (b *termBuilder) callTerm(c *ast.CallExpr) *Term {
 		return t
 	}
 	var args []*Term
-	for _, a := range c.Args {
-		args = append(args, b.term(a))
+	for i, a := range c.Args {
+		t := b.term(a)
+		if c.Ellipsis.IsValid() && i == len(c.Args)-1 && t.K == "lit" && strings.HasPrefix(t.S, "[]") {
+			// f(x, []T{a, b}...) passes a, b
+			for _, kv := range t.A {
+				if len(kv.A) == 1 {
+					args = append(args, kv.A[0])
+				}
+			}
+			continue
+		}
+		args = append(args, t)
 	}
 	fun := unparen(c.Fun)
 	if ix, ok := fun.(*ast.IndexExpr); ok {
